@@ -1,0 +1,15 @@
+//go:build verif
+
+package jsonrpc2
+
+// VerifYield is installed by the runtime monitors under /verif (build tag verif)
+// before any goroutine of this package runs. It is called between critical
+// sections (never while a mutex of this package is held) to widen interleavings
+// and to record the order of events.
+var VerifYield func(point string)
+
+func verifYield(point string) {
+	if f := VerifYield; f != nil {
+		f(point)
+	}
+}
